@@ -94,6 +94,9 @@ FEATURES: dict[str, float] = {
     # identities
     "identity_chain": 0.35,
     "identity_io": 0.25,  # Identity directly between input/initializer and output
+    "identity_io_shadow": 0.10,  # ... whose output name is also used inside an *earlier* sibling subgraph
+    "identity_rename_shadow": 0.10,  # same, but the Identity input is a node output defined before that subgraph
+    "cse_rename_shadow": 0.10,  # duplicate pair: the later twin is an output named like an earlier subgraph-local value
     "identity_outer_branch": 0.12,  # t = Identity(outer node output) returned by an If branch / Loop body
     "identity_input_branch": 0.12,  # t = Identity(outer graph input / initializer) returned by a branch
     "identity_in_branch": 0.20,  # removable Identity in the middle of a branch
@@ -112,7 +115,7 @@ FEATURES: dict[str, float] = {
 }
 _FN_FEATURES = ("fn", "fn_attr", "fn_default_used", "fn_nested", "fn_overload")
 DUPLICATE_FEATURES = frozenset(
-    {"dup_expr", "near_dup_attr", "near_dup_outcount", "near_dup_default", "signed_zero", "dup_init",
+    {"cse_rename_shadow", "dup_expr", "near_dup_attr", "near_dup_outcount", "near_dup_default", "signed_zero", "dup_init",
      "near_dup_init_dtype", "near_dup_init_shape"}
 )
 
@@ -910,6 +913,46 @@ class _Builder:
             self.observe += self.gen_if(m, rng, then_hook=hooks[0], else_hook=hooks[1],
                                         out_types=[(outer.dt, outer.shape)])
 
+    def _identity_named_like_earlier_local(self, rng, dec, src: _TV):
+        """If(...) with a branch-local value named N, *then* ``N = Identity(src)`` as graph output: legal,
+        because N is defined in the main graph after the If (sibling scopes may reuse a name)."""
+        shared = self.fresh("y")
+        x = self._x(rng)
+
+        def hook(s):
+            t = self.emit(s, "Relu", [x], names=[shared])[0]
+            return [self.emit(s, "Neg", [t], typed=True)[0]]
+        self.observe += self.gen_if(self.main, rng, then_hook=hook, out_types=[(F32, (2, 3))])
+        self.observe += self.emit(self.main, "Identity", [src], None, [(src.dt, src.shape)], names=[shared], typed=True)
+
+    def plant_identity_io_shadow(self, rng):
+        dec = random.Random(rng.random())
+        m = self.main
+        ins = [t for t in m.inputs if t.dt != BOOL]
+        src = rng.choice(ins) if dec.random() < 0.6 else self.add_init(m, rng, F32, (3,))
+        self._identity_named_like_earlier_local(rng, dec, src)
+
+    def plant_identity_rename_shadow(self, rng):
+        dec = random.Random(rng.random())
+        src = self.emit(self.main, dec.choice(["Abs", "Neg"]), [self._x(rng)])[0]
+        if dec.random() < 0.5:
+            self.observe += self.emit(self.main, "Relu", [src])
+        self._identity_named_like_earlier_local(rng, dec, src)
+
+    def plant_cse_rename_shadow(self, rng):
+        dec = random.Random(rng.random())
+        x = self._x(rng)
+        op = dec.choice(["Abs", "Neg", "Relu"])
+        twin = self.emit(self.main, op, [x])[0]
+        self.observe += self.emit(self.main, "Neg", [twin])
+        shared = self.fresh("y")
+
+        def hook(s):
+            t = self.emit(s, "Relu", [x], names=[shared])[0]
+            return [self.emit(s, "Neg", [t], typed=True)[0]]
+        self.observe += self.gen_if(self.main, rng, then_hook=hook, out_types=[(F32, (2, 3))])
+        self.observe += self.emit(self.main, op, [x], names=[shared], typed=True)
+
     def plant_identity_outer_branch(self, rng):
         dec = random.Random(rng.random())  # variant decisions: independent of pool sizes
         x = self._x(rng)
@@ -1112,7 +1155,7 @@ class _Builder:
     PLANT_ORDER = [
         "consts_all_forms", "dup_expr", "near_dup_attr", "near_dup_outcount", "near_dup_default", "signed_zero",
         "dup_init", "near_dup_init_dtype", "near_dup_init_shape", "init_is_input", "identity_chain", "identity_io",
-        "identity_outer_branch", "identity_input_branch", "identity_in_branch", "captured_only", "const_in_branch",
+        "identity_io_shadow", "identity_rename_shadow", "cse_rename_shadow", "identity_outer_branch", "identity_input_branch", "identity_in_branch", "captured_only", "const_in_branch",
         "subgraph_init", "sibling_init_name", "optional_io", "bn_training", "fn_alias", "fn_alias_branch",
         "fn_names_shadow", "fn_named_identity", "unused_node", "unused_fn", "unused_opset", "unused_init",
         "out_alias_input", "out_init", "out_dup",
